@@ -224,6 +224,52 @@ example :
     rtOK rtOptsLow 4 swapT swapV = false := by
   decide +kernel
 
+/-! ## full strength
+
+The title clause of C16 as the property states it, on the models: for EVERY value of every type and
+every option set (of the encoder model). It is FALSE for the code as it is; `rtOK` is the named
+fragment the partial theorems above are about. -/
+
+def C16_inverse_full : Prop :=
+  ∀ (o : Opts) (tf vf : Nat) (t : GoType) (v : GoVal), o.omitNil = false → o.omitEmpty = false → o.strict = false →
+    0 < tf → vf ≤ 256 → hasType vf t v = true →
+    ∃ v', recomposePure o.createKey t (encode .alt Dev.current o tf vf t v) = .ok v' ∧ norm v' = norm v
+
+def slotOk : Slot → Bool
+  | .ok _ => true
+  | _ => false
+
+/-- `type A struct { Kind bool `json:"type,omitempty"`; Type int `json:"kind"` }`, `A{false, 7}` -/
+def fallT : GoType := .struct [] [] [(C15.fld "Kind" "type,omitempty", .bool), (C15.fld "Type" "kind", .int 0)]
+def fallV : GoVal := .struct [.bool false, .int 7]
+
+/-- finding `C16-omitted-member-sibling-spelling` on the model (the model is faithful to the code here; the
+harness reproduces it on alt.Recompose and oj.Unmarshal): `Kind` is empty and dropped by `omitempty`,
+the decomposition is `{"kind":7}`, and recomp, finding no member "type", falls through to the
+spellings of the Go name and gives `Kind` the member of `Type` — an int into a bool: a panic, i.e. the
+error result of Recompose. The value is well typed, the struct is outside `structOK`. -/
+theorem omitted_member_sibling_spelling_witness :
+    hasType 4 fallT fallV = true ∧
+    (encode .alt Dev.current rtOpts 4 4 fallT fallV).render = "{K(5e)S(-),K(6b696e64)I(7)}" ∧
+    slotOk (recomposePure rtOpts.createKey fallT (encode .alt Dev.current rtOpts 4 4 fallT fallV)) = false ∧
+    structOK (effOpts rtOpts) [(C15.fld "Kind" "type,omitempty", .bool), (C15.fld "Type" "kind", .int 0)] = false := by
+  decide +kernel
+
+/-- finding `C16-bytes-text`: a `[]byte` under `BytesAsString` is written as a string, which recomp
+refuses -/
+theorem bytes_text_witness :
+    hasType 4 (.struct [] [] [(C15.fld "Raw", .bytes)]) (.struct [.bytes [97]]) = true ∧
+    slotOk (recomposePure rtOptsLow.createKey (.struct [] [] [(C15.fld "Raw", .bytes)])
+      (encode .alt Dev.current rtOptsLow 4 4 (.struct [] [] [(C15.fld "Raw", .bytes)]) (.struct [.bytes [97]]))) = false := by
+  decide +kernel
+
+theorem C16_inverse_full_false : ¬ C16_inverse_full := by
+  intro h
+  obtain ⟨v', hv, _⟩ := h rtOpts 4 4 fallT fallV rfl rfl rfl (by decide) (by decide) omitted_member_sibling_spelling_witness.1
+  have := omitted_member_sibling_spelling_witness.2.2.1
+  rw [hv] at this
+  cases this
+
 /-- the side condition does exclude something: two fields that the lower-case style maps to one key -/
 example : structOK rtOptsLow [(C15.fld "AB", .int 0), (C15.fld "Ab", .int 0)] = false := by decide +kernel
 
